@@ -211,6 +211,14 @@ fn guarded_check<P: Prop>(ctx: &mut Ctx, case: &P::Case) -> Outcome {
     let res = std::panic::catch_unwind(std::panic::AssertUnwindSafe(|| P::check(ctx, case)));
     match res {
         Ok(mut o) => {
+            // a timeout of the harness's own plumbing (not of the code under test) is never a verdict: the worker gives up
+            // and the run is inconclusive (exit 2)
+            if let Some(f) = &o.failure {
+                if f.sig.ends_with("/harness-timeout") {
+                    eprintln!("INCONCLUSIVE: {}: {}", f.sig, f.detail);
+                    std::process::exit(2);
+                }
+            }
             // a panic on another thread (the store actor, a spawned task) during the case is a failure too
             if let Some(msg) = take_last_panic() {
                 if !o.failed() {
